@@ -120,6 +120,49 @@ func nestedIndexHistory(h *HistGen) []J {
 	return lines
 }
 
+// typeSwitchHistory: an indexed field whose value changes TYPE in place between values whose key payloads
+// coincide (false / 1970-01-01T00:00:00Z / 0 / 0.0 / "" ; true / one nanosecond later / 1): the entry must move
+// to the new type's key range; queries by type range and the raw dump (invariant oracle) after every write.
+func typeSwitchHistory(h *HistGen) []J {
+	g := h.G
+	c := "ts"
+	vals := []interface{}{false, true, mkTime(0, 0), mkTime(1, 0), int64(0), int64(1), float64(0), uint64(1), "", nil, []interface{}{}, map[string]interface{}{}}
+	lines := []J{opLine("createCollection", J{"coll": hx(c)}), opLine("createIndex", J{"coll": hx(c), "field": hx("f")})}
+	ids := []string{}
+	docs := []interface{}{}
+	for j := 0; j < 6; j++ {
+		id := h.newId()
+		ids = append(ids, id)
+		docs = append(docs, encDoc(map[string]interface{}{"_id": id, "f": vals[g.pick(len(vals))], "k": int64(j)}))
+	}
+	lines = append(lines, opLine("insert", J{"coll": hx(c), "docs": docs}), J{"k": "dump"})
+	probe := func() {
+		for _, v := range []interface{}{false, mkTime(0, 0), int64(0), ""} {
+			lines = append(lines, opLine("findAll", J{"q": J{"coll": hx(c), "crit": J{"cmp": []interface{}{[]string{"eq", "ge", "le"}[g.pick(3)], hx("f"), J{"lit": encValue(v)}}}}}))
+		}
+		lines = append(lines, opLine("findAll", J{"q": J{"coll": hx(c), "sort": []interface{}{[]interface{}{hx("f"), 1 - 2*g.pick(2)}}}}), J{"k": "dump"})
+	}
+	for i := 0; i < 8; i++ {
+		id := ids[g.pick(len(ids))]
+		v := vals[g.pick(len(vals))]
+		switch g.pick(5) {
+		case 0:
+			lines = append(lines, opLine("updateById", J{"coll": hx(c), "id": hx(id), "upd": J{"setAll": []interface{}{[]interface{}{hx("f"), encValue(v)}}}}))
+		case 1:
+			lines = append(lines, opLine("update", J{"q": J{"coll": hx(c), "crit": J{"cmp": []interface{}{"le", hx("k"), J{"lit": encValue(int64(g.pick(6)))}}}}, "upd": J{"setAll": []interface{}{[]interface{}{hx("f"), encValue(v)}}}, "viaUpdate": 1}))
+		case 2:
+			lines = append(lines, opLine("replaceById", J{"coll": hx(c), "id": hx(id), "doc": encDoc(map[string]interface{}{"_id": id, "f": v, "k": int64(g.pick(6))})}))
+		case 3:
+			lines = append(lines, opLine("save", J{"coll": hx(c), "doc": encDoc(map[string]interface{}{"_id": id, "f": v, "k": int64(g.pick(6))})}))
+		default:
+			lines = append(lines, opLine("update", J{"q": J{"coll": hx(c), "crit": J{"cmp": []interface{}{"eq", hx("f"), J{"lit": encValue(vals[g.pick(len(vals))])}}}}, "upd": J{"setAll": []interface{}{[]interface{}{hx("f"), encValue(v)}}}}))
+		}
+		probe()
+	}
+	lines = append(lines, opLine("dropCollection", J{"coll": hx(c)}), J{"k": "dump"})
+	return lines
+}
+
 func streamHistories(c *Ctx, cfg HistCfg, what string) {
 	c.Rule = "random histories (" + what + ") over 2-3 collections with prefix-related names, documents with mixed-type/absent/nil/nested fields drawn from a per-history value pool, " +
 		"index create/drop interleaved; every operation's result compared impl vs Lean model vs Lean spec; non-trivial = distinct (operation, canonical result) where the result is not an error and, for queries, at least one document matched and one did not"
@@ -148,6 +191,9 @@ func streamHistories(c *Ctx, cfg HistCfg, what string) {
 			for r := 0; r < c.N(6, 60); r++ {
 				g := NewGen(c.Rng, dm)
 				lines := nestedIndexHistory(NewHistGen(g, 1, 1))
+				if r%2 == 1 {
+					lines = typeSwitchHistory(NewHistGen(g, 1, 1))
+				}
 				o := runHistory(dr, im, lines, HistOpts{})
 				recordHistory(c, lines, &o, be)
 				c.Count("nested-index-history")
